@@ -16,6 +16,9 @@ pub const M_EMBED: u32 = 64; // hdrs vectors embedded after a start line (C16)
 pub const M_CAPLAW: u32 = 128; // capacity law against the same input with more room (C17)
 pub const M_STRADDLE8: u32 = 256; // 8 placements with a page boundary inside the buffer
 pub const M_STRADDLE_ALL: u32 = 512; // every position of a page boundary inside the buffer
+pub const M_GIANT: u32 = 1024; // head at the start of a sparse > 4 GiB slice (final verdicts, completed Partials)
+pub const M_CFGS_DONE: u32 = 4096; // cfgs also on default-Partial vectors completed with their witness
+pub const M_HEAP: u32 = 2048; // exact-size heap block per vector (for a run under a memory checker)
 
 pub fn parse_modes(s: &str) -> u32 {
     let mut m = 0;
@@ -32,6 +35,9 @@ pub fn parse_modes(s: &str) -> u32 {
             "caplaw" => M_CAPLAW,
             "straddle8" => M_STRADDLE8,
             "straddleall" => M_STRADDLE_ALL,
+            "giant" => M_GIANT,
+            "heap" => M_HEAP,
+            "cfgsdone" => M_CFGS | M_CFGS_DONE,
             "all" => M_PLACES | M_ENTRIES | M_CFGS | M_COMPLETION | M_EXTEND | M_EMBED | M_CAPLAW,
             x => panic!("unknown mode {}", x),
         };
@@ -121,7 +127,29 @@ pub struct Ctx {
     pub max_violations: usize,
     /// 64-bit hashes of the (kind, options, capacity, bytes) of every non-trivial vector seen
     pub hashes: Vec<u64>,
+    pub giant: Option<crate::giant::Giant>,
+    pub giant_tried: bool,
+    pub vg_errors: usize,
 }
+
+/// Valgrind client request (x86_64 magic sequence; a no-op returning `default` outside valgrind)
+#[cfg(target_arch = "x86_64")]
+fn vg_request(default: usize, args: &[usize; 6]) -> usize {
+    let mut res = default;
+    unsafe {
+        core::arch::asm!(
+            "rol rdi, 3", "rol rdi, 13", "rol rdi, 61", "rol rdi, 51", "xchg rbx, rbx",
+            inout("rdx") res, in("rax") args.as_ptr(), options(nostack)
+        );
+    }
+    res
+}
+#[cfg(not(target_arch = "x86_64"))]
+fn vg_request(default: usize, _args: &[usize; 6]) -> usize { default }
+/// number of errors the memory checker has reported so far (VG_USERREQ__COUNT_ERRORS)
+pub fn vg_count_errors() -> usize { vg_request(0, &[0x1201, 0, 0, 0, 0, 0]) }
+/// 1.. under valgrind, 0 otherwise (VG_USERREQ__RUNNING_ON_VALGRIND)
+pub fn vg_running() -> usize { vg_request(0, &[0x1001, 0, 0, 0, 0, 0]) }
 
 /// real array length for a vector.  For "unlimited" capacity the length varies with the
 /// vector index: one spare slot only, a few, more than 16, more than 32, 100 - so that
@@ -152,7 +180,7 @@ const SUFFIXES: [&[u8]; 8] = [b"\n", b"a", b"\r\n\r\n", b" ", b":", b"\0", b"\r"
 impl Ctx {
     pub fn new(modes: u32, big: bool) -> Ctx {
         let sz = if big { 2 << 20 } else { 64 << 10 };
-        Ctx { arena: Arena::new(sz), arena2: Arena::new(sz), modes, stats: Stats::default(), violations: Vec::new(), max_violations: 200, hashes: Vec::new() }
+        Ctx { arena: Arena::new(sz), arena2: Arena::new(sz), modes, stats: Stats::default(), violations: Vec::new(), max_violations: 200, hashes: Vec::new(), giant: None, giant_tried: false, vg_errors: 0 }
     }
 
     fn report(&mut self, tags: Tags, entry: u8, context: &str, line: &str) {
@@ -209,10 +237,40 @@ impl Ctx {
                 let mut t = Tags::new();
                 judge_zero_copy(v, &o, p2, &mut t);
                 judge_hygiene(v, &o, p2, &mut t);
+                // fields the specification had already determined when the buffer ended are final
+                // (PropFieldsMonotone): the completed parse must report exactly them
+                if v.st == ST_P {
+                    judge_determined_fields(v, &o, p2, &mut t);
+                }
                 if !t.is_empty() {
                     self.report(t, entry, &format!("{:?}, continued with {:?}", how, String::from_utf8_lossy(&tail)), line);
                 }
                 break;
+            }
+        }
+    }
+
+    /// every one of the 127 other option sets on an input the default configuration accepts
+    fn all_cfgs(&mut self, kind: u8, entry: u8, buf: &[u8], cap: usize, base: &Obs, line: &str, note: &str) {
+        for c in 1u8..128 {
+            let o = run(entry, c, buf, cap);
+            self.stats.observations += 1;
+            self.stats.cfg_expansions += 1;
+            let mut o2 = o.clone();
+            // sole stated exception: Mr strips leading spaces from the reason
+            if kind == K_RESP && c & 2 != 0 {
+                if let (Some(br), Some(or)) = (base.reason, o.reason) {
+                    let bb = unsafe { br.bytes() };
+                    let lead = bb.iter().take_while(|x| **x == b' ').count();
+                    let want = Sl { ptr: br.ptr + lead, len: br.len - lead };
+                    if or == want || (want.len == 0 && or.len == 0) {
+                        o2.reason = base.reason;
+                    }
+                }
+            }
+            if let Some(m) = same_result(base, buf, &o2, buf) {
+                let t = vec![("C15", format!("input accepted by the default configuration parses differently under cfg bits {:#x}{}: {}", c, note, m))];
+                self.report(t, entry, &format!("cfg={:#x}", c), line);
             }
         }
     }
@@ -251,6 +309,28 @@ impl Ctx {
             vv.cfg = v.cfg | (((idx.wrapping_mul(0x9e3779b97f4a7c15) >> 40) as u8) & other);
         }
         let v = &vv;
+
+        // ---- exact-size heap block (run under a memory checker: a read or write outside the
+        // caller's buffer that stays inside mapped memory is invisible to guard pages)
+        if modes & M_HEAP != 0 {
+            let hb: Box<[u8]> = v.buf.clone().into_boxed_slice();
+            for &e in entries_of(v.kind, v.cfg == 0) {
+                let o = run(e, v.cfg, &hb, cap);
+                self.stats.observations += 1;
+                let mut tags = Tags::new();
+                let mut drift = Vec::new();
+                judge_all(v, &o, &hb, e, &mut tags, &mut drift);
+                let n = vg_count_errors();
+                if n > self.vg_errors {
+                    self.vg_errors = n;
+                    tags.push(("C01", "the memory checker reported an access outside the buffer (exact-size heap block) during this call".into()));
+                }
+                if !tags.is_empty() {
+                    self.report(tags, e, "placement=Heap", line);
+                }
+            }
+            return;
+        }
 
         // ---- base observation: end of buffer flush against an unmapped page
         let buf = self.arena.place(&v.buf, Place::End);
@@ -379,26 +459,19 @@ impl Ctx {
                 }
             }
             if v.cfg == 0 && base.st == ST_C {
-                for c in 1u8..128 {
-                    let o = run(entry, c, buf, cap);
-                    self.stats.observations += 1;
-                    self.stats.cfg_expansions += 1;
-                    let mut o2 = o.clone();
-                    // sole stated exception: Mr strips leading spaces from the reason
-                    if v.kind == K_RESP && c & 2 != 0 {
-                        if let (Some(br), Some(or)) = (base.reason, o.reason) {
-                            let bb = unsafe { br.bytes() };
-                            let lead = bb.iter().take_while(|x| **x == b' ').count();
-                            let want = Sl { ptr: br.ptr + lead, len: br.len - lead };
-                            if or == want || (want.len == 0 && or.len == 0) {
-                                o2.reason = base.reason;
-                            }
-                        }
-                    }
-                    if let Some(m) = same_result(&base, buf, &o2, buf) {
-                        let t = vec![("C15", format!("input accepted by the default configuration parses differently under cfg bits {:#x}: {}", c, m))];
-                        self.report(t, entry, &format!("cfg={:#x}", c), line);
-                    }
+                self.all_cfgs(v.kind, entry, buf, cap, &base, line, "");
+            }
+            // a Partial of the default configuration, completed with the specification's witness,
+            // is an input the default configuration accepts as well
+            if modes & M_CFGS_DONE != 0 && v.cfg == 0 && v.st == ST_P && base.st == ST_P && !v.deferred && !v.completion.is_empty() {
+                let mut b2 = v.buf.clone();
+                b2.extend_from_slice(&v.completion);
+                let p2 = self.arena2.place(&b2, Place::End);
+                let p2: &[u8] = unsafe { std::slice::from_raw_parts(p2.as_ptr(), p2.len()) };
+                let o = run(entry, 0, p2, cap);
+                self.stats.observations += 1;
+                if o.st == ST_C && !o.panicked {
+                    self.all_cfgs(v.kind, entry, p2, cap, &o, line, " (buffer ++ completion witness)");
                 }
             }
         }
@@ -556,6 +629,61 @@ impl Ctx {
                 } else if let Some(m) = same_result(&base, buf, &o, buf) {
                     let t = vec![("C17", format!("outcome with capacity {} differs from the outcome with capacity {} although no surplus header completed: {}", cap, big, m))];
                     self.report(t, entry, "capacity law", line);
+                }
+            }
+        }
+
+        // ---- the head at the start of a slice of more than 4 GiB (zero pages behind it)
+        if modes & M_GIANT != 0 && !base.panicked && !had_mismatch {
+            if !self.giant_tried {
+                self.giant_tried = true;
+                self.giant = crate::giant::Giant::new();
+            }
+            // what the specification says about head ++ 0^k: a final verdict is absorbing; a
+            // Partial that is not deferred becomes Complete(len) with its completion witness
+            let head: Option<Vec<u8>> = if v.st != ST_P {
+                Some(v.buf.clone())
+            } else if !v.deferred && !v.completion.is_empty() && v.kind != K_CHUNK {
+                let mut h = v.buf.clone();
+                h.extend_from_slice(&v.completion);
+                Some(h)
+            } else {
+                None
+            };
+            if let (Some(head), true) = (head, self.giant.is_some()) {
+                for t in 0..2u64 {
+                    let j = ((idx.wrapping_mul(2) + t).wrapping_mul(7) % 41) as usize;
+                    let total = crate::giant::FOUR_G + j;
+                    let g = self.giant.as_mut().unwrap();
+                    let p2 = g.place(&head, total);
+                    let p2: &[u8] = unsafe { std::slice::from_raw_parts(p2.as_ptr(), p2.len()) };
+                    let o = run(entry, v.cfg, p2, cap);
+                    self.stats.observations += 1;
+                    self.stats.placements += 1;
+                    let mut tg = Tags::new();
+                    if o.panicked {
+                        tg.push(("C01", "the call panicked".into()));
+                    } else if v.st != ST_P {
+                        if let Some(m) = same_result(&base, buf, &o, p2) {
+                            tg.push(("C02", format!("final answer changed when the slice was extended to 2^32+{} bytes: {}", j, m)));
+                            tg.push((v.language_prop(), format!("answer on a slice of 2^32+{} bytes (the same head, zeros behind it) differs: {}", j, m)));
+                            tg.push(("C13", format!("answer depends on the length of the slice behind the head (2^32+{}): {}", j, m)));
+                        }
+                        judge_zero_copy(v, &o, p2, &mut tg);
+                        judge_hygiene(v, &o, p2, &mut tg);
+                    } else if !(o.st == ST_C && o.n == head.len()) {
+                        let m = format!("buffer ++ completion witness is Complete({}) by the specification, but on a slice of 2^32+{} bytes the code answers {}({})",
+                            head.len(), j, ["Partial", "Complete", "Err"][o.st as usize], if o.st == ST_E { ERR_NAMES[o.err as usize].to_string() } else { o.n.to_string() });
+                        tg.push((v.language_prop(), m.clone()));
+                        tg.push(("C02", m.clone()));
+                        tg.push(("C11", m));
+                    } else {
+                        judge_zero_copy(v, &o, p2, &mut tg);
+                        judge_hygiene(v, &o, p2, &mut tg);
+                    }
+                    if !tg.is_empty() {
+                        self.report(tg, entry, &format!("placement=Giant(2^32+{})", j), line);
+                    }
                 }
             }
         }
